@@ -60,7 +60,14 @@ OwnInv(k, sel) == LET ds == Stmt(k).invs IN
                            \/ (sel = "onset" /\ CON(ds[i].c).on \in {"SETATTR", "ALL"}) THEN <<ds[i].c>> ELSE <<>>) \o Pick(i + 1)
   IN Pick(1)
 InhInv(bases, sel) == IF bases = <<>> THEN <<>> ELSE RefInv(Head(bases), sel) \o InhInv(Tail(bases), sel)
-RefInv(k, sel) == (IF Stmt(k).dbc THEN InhInv(Stmt(k).bases, sel) ELSE <<>>) \o OwnInv(k, sel)
+\* A class created through the metaclass accumulates the invariants visible on each of its bases.  A PLAIN class (no
+\* metaclass; the documentation leaves inheritance undefined there, the families keep to single inheritance and do not
+\* decorate a plain subclass of a decorated plain class) shows its own list if it was decorated, else what plain
+\* attribute lookup finds on its base.
+RefInv(k, sel) ==
+  IF Stmt(k).dbc THEN InhInv(Stmt(k).bases, sel) \o OwnInv(k, sel)
+  ELSE IF Stmt(k).invs # <<>> \/ Stmt(k).bases = <<>> THEN OwnInv(k, sel)
+  ELSE RefInv(Head(Stmt(k).bases), sel)
 
 \* a decorator stack is invalid if a snapshot is not preceded (below it) by a postcondition, or repeats a name
 BadStack(decos) ==
@@ -102,7 +109,10 @@ NonInterference ==
 \* no list object can be reached for appending from two different classes
 NoSharedInvList ==
   Settled => \A k1, k2 \in Created : \A sel \in {"inv", "oncall", "onset"} :
-               (k1 # k2 /\ InvListOf(cl, k1, sel) # 0) => InvListOf(cl, k1, sel) # InvListOf(cl, k2, sel)
+               \* (a plain subclass of a plain class sees the very list of its base through attribute lookup: the
+               \*  documentation leaves that case undefined; every class created through the metaclass owns its lists)
+               (k1 # k2 /\ InvListOf(cl, k1, sel) # 0 /\ (Stmt(k1).dbc \/ Stmt(k2).dbc))
+                  => InvListOf(cl, k1, sel) # InvListOf(cl, k2, sel)
 
 (* ---- C14: a stack of contract decorators has exactly one checker; the original stays reachable ---- *)
 DeclForeign(k, name) == Len(Sel(MemberDecl(k, name).decos, 1, "foreign"))
